@@ -142,14 +142,14 @@ def get_current_url(
         return uri_to_iri("".join(url))
 
     # safe = https://url.spec.whatwg.org/#url-path-segment-string
-    # as well as percent for things that are already quoted
-    url.append(quote(root_path.rstrip("/"), safe="!$&'()*+,/:;=@%"))
+    # The paths are already unquoted, a percent sign is literal.
+    url.append(quote(root_path.rstrip("/"), safe="!$&'()*+,/:;=@"))
     url.append("/")
 
     if path is None:
         return uri_to_iri("".join(url))
 
-    url.append(quote(path.lstrip("/"), safe="!$&'()*+,/:;=@%"))
+    url.append(quote(path.lstrip("/"), safe="!$&'()*+,/:;=@"))
 
     if query_string:
         url.append("?")
